@@ -529,6 +529,9 @@ func (c *hctx) storePrep(l ast.Expr, st *ast.AssignStmt, pre *[]hbind) func(val 
 				return
 			}
 			c.checkAssign(x, t, st)
+			if t.k == "nil" {
+				val = c.nilOf(x.typ, l)
+			}
 			if t.k == "struct" && t.owned && !c.freshOwned(val) {
 				c.lostAt(l, "copy of a pointer to a value struct (aliasing)")
 			}
@@ -552,7 +555,11 @@ func (c *hctx) storePrep(l ast.Expr, st *ast.AssignStmt, pre *[]hbind) func(val 
 			if x == nil {
 				c.lostAt(l, "assignment target %s", src(l))
 			}
+			c.recvCheck(pre)
 			return func(val string, t *hty) {
+				if t.k == "nil" {
+					val = c.nilOf(x.typ, l)
+				}
 				pat := x.name
 				if val == "None" || val == "[]" {
 					pat += " : " + x.typ.coq()
@@ -971,6 +978,12 @@ func (c *hctx) sliceVar(e ast.Expr) *hvar {
 // receiver field (exact for the elements; re-slicing beyond len is the distinguished PSliceLen)
 func (c *hctx) sliceUpdate(v *ast.AssignStmt, pre *[]hbind) bool {
 	x := c.sliceVar(v.Lhs[0])
+	if x != nil && x.role == "field" {
+		switch ast.Unparen(v.Rhs[0]).(type) {
+		case *ast.CallExpr, *ast.SliceExpr:
+			c.recvCheck(pre)
+		}
+	}
 	switch r := ast.Unparen(v.Rhs[0]).(type) {
 	case *ast.CallExpr:
 		if !isBuiltin(r, "append", len(r.Args)) || len(r.Args) < 1 {
@@ -1004,4 +1017,16 @@ func (c *hctx) sliceUpdate(v *ast.AssignStmt, pre *[]hbind) bool {
 		return true
 	}
 	return false
+}
+
+// nilOf: nil assigned to a variable of type t
+func (c *hctx) nilOf(t *hty, at ast.Node) string {
+	switch t.k {
+	case "slice":
+		return "[]"
+	case "hptr":
+		return "None"
+	}
+	c.lostAt(at, "nil assigned to a variable of type %s", t.k)
+	return ""
 }
